@@ -262,6 +262,22 @@ def check_unit(ex, s, u, d, seen, order, sync, limit):
                     '%s|%s' % (u['kind'], 'before-' + end[0] if end else 'plain'),
                     'session %d: %s was accepted (%s) but no message event fired' % (
                         s.ord, tag, u['kind']))
+    # untagged payloads (empty bytes / text): an event of this very step must carry each
+    if not end:
+        steps = ex.event_steps_for(s)
+        now_args = [a for (t, ev, a), stp in zip(ex.events_for(s), steps)
+                    if ev == 'message' and stp == len(ex.actions)]
+        for pt, allowed, binary in u['eff'][1]:
+            if pt != 4 or find_tag(allowed[-1]) is not None:
+                continue
+            hit = [i for i, a in enumerate(now_args)
+                   if any(type(a) is type(dd) and rm.jeq(a, dd) for dd in allowed)]
+            if not hit:
+                raise V(ex, 'message-not-dispatched', '%s|untagged-%s' % (
+                    u['kind'], 'empty' if allowed[-1] in (b'', '') else 'short'),
+                    'session %d: MESSAGE %r was accepted (%s) but no message event carried it' % (
+                        s.ord, allowed[-1], u['kind']))
+            del now_args[hit[0]]
     if sync and len(required) > 1:
         idx = [order.index(t) for t in required]
         if idx != sorted(idx):
@@ -304,6 +320,13 @@ def check_unit(ex, s, u, d, seen, order, sync, limit):
                         'session %d: CLOSE frame, no disconnect event' % s.ord)
         elif not end:
             pt = u['eff'][1][0][0] if u['eff'][1] else None
+            conn = u.get('conn')
+            if pt == 4 and disc and not d['other_causes'] and not s.causes and not s.vanished \
+                    and not getattr(s, 'soft_faults', None) and conn is not None and \
+                    not (conn.peer_closed or conn.failed):
+                raise V(ex, 'valid-frame-ended-session', str(disc[0][1]),
+                        'session %d: a well-formed MESSAGE frame %r ended the session (%r)' % (
+                            s.ord, e['raw'] if len(e['raw']) < 30 else e['raw'][:30], disc[0][1]))
             if pt in (0, 2, 6, 7, 8, 9) and disc and not d['other_causes']:
                 raise V(ex, 'ws-bad-type-not-ignored', 'type=%d' % pt,
                         'session %d: frame of type %d ended the session (%r)' % (
@@ -341,6 +364,7 @@ def check_post_to_ws_session(ex, s, u, d, limit):
 
 
 PROFILE = {
+    'untagged_empties_pct': 6,       # MESSAGE packets with an empty / one-byte untagged payload
     # polling clients come in flavours: plain, JSONP (j=<n>, d=<payload> posts), compressed
     # answers (Accept-Encoding with a low threshold), both
     'client_flavours': ['plain', 'plain', 'plain', 'jsonp', 'gzip', 'jsonp+gzip'],
